@@ -137,7 +137,10 @@ def run(tier, seed):
             ccs = list(ex.map(one, range(len(jobs))))
         for i, (n, s, args, row) in enumerate(meta):
             r = res[i]
-            verdicts[s].add(r.get('outcome') if r.get('outcome') == 'code' else (r.get('outcome'), r.get('errclass')))
+            # EOF and yield support are semantic options (e.g. $last may not be used where end-of-input can trigger the action):
+            # the verdict is compared among the rows that agree on them
+            vkey = (s, '-feof-support' in args, '-fyield-support' in args)
+            verdicts[vkey].add(r.get('outcome') if r.get('outcome') == 'code' else (r.get('outcome'), r.get('errclass')))
             if r.get('outcome') in ('internal_error', 'timeout'):
                 chk.violation('compiler crashed on %s %s: %s %s' % (n, args, r.get('errclass'), (r.get('msg') or '')[:200]),
                               {'program': n, 'source': s, 'args': args, 'msg': r.get('msg'), 'traceback': r.get('tb')})
@@ -153,9 +156,9 @@ def run(tier, seed):
             ev_meta.append((i, logs))
     finally:
         shutil.rmtree(root, ignore_errors=True)
-    # option rows must not change the verdict of a program (only yield/end programs depend on their flag, which is forced)
+    # representation option rows must not change the verdict of a program
     nverd = 0
-    for s, vs in verdicts.items():
+    for (s, _eof, _yld), vs in verdicts.items():
         if len(vs) > 1 and 'code' in vs:
             nverd += 1
             others = [v for v in vs if v != 'code']
